@@ -39,6 +39,14 @@ fn sentinels() -> Tree {
         "outside_dir/inner".into(),
         Node::file(b"INNER", 1_333_333_333).with_mode(0o604).with_owner(1, 1).with_mtime(1_333_333_333, 333),
     );
+    t.insert(
+        "outside_dir/sub".into(),
+        Node::dir(1_444_444_444).with_mode(0o710).with_owner(1, 2).with_mtime(1_444_444_444, 444),
+    );
+    t.insert(
+        "outside_dir/sub/deep".into(),
+        Node::file(b"DEEP", 1_555_555_555).with_mode(0o600).with_owner(2, 2).with_mtime(1_555_555_555, 555),
+    );
     t
 }
 
@@ -176,6 +184,12 @@ pub fn judge_stitched(target_idx: usize, scratch: &Scratch, n: &AtomicU64) -> Ve
     t0.insert("l0".into(), Node::dir(T0 + 1));
     t0.insert("l0/inner".into(), Node::file(b"overwritten?", T0 + 2).with_mode(0o666).with_owner(2, 2));
     t0.insert("l0/newfile".into(), Node::file(b"created?", T0 + 3));
+    // nested entries: two and three levels below the directory that becomes a symlink
+    t0.insert("l0/sub".into(), Node::dir(T0 + 5).with_mode(0o777).with_owner(2, 1));
+    t0.insert("l0/sub/deep".into(), Node::file(b"overwritten deep?", T0 + 6).with_mode(0o666));
+    t0.insert("l0/sub/newdir".into(), Node::dir(T0 + 7));
+    t0.insert("l0/sub/newdir/leaf".into(), Node::file(b"leaf?", T0 + 8));
+    t0.insert("l0/sub/sl".into(), Node::symlink("deep", T0 + 9));
     t0.insert("zz".into(), Node::file(b"zz", T0 + 4));
     let mut t1 = empty_tree();
     t1.insert("l0".into(), Node::symlink(&target, T0 + 11));
